@@ -63,7 +63,7 @@ class _canary_add:
 
 
 CONTRACTS = ["pendulum.time.Time.add", "pendulum.time.Time.subtract", "pendulum.time.Time.add_timedelta", "pendulum.time.Time.subtract_timedelta",
-             "pendulum.time.Time.__add__", "pendulum.time.Time.__sub__", "pendulum.time.Time.diff", "pendulum.time.Time.closest", "pendulum.time.Time.farthest",
+             "pendulum.time.Time.__add__", "pendulum.time.Time.__sub__", "pendulum.time.Time.__rsub__", "pendulum.time.Time.diff", "pendulum.time.Time.closest", "pendulum.time.Time.farthest",
              "pendulum.duration.AbsoluteDuration.__new__", "props.C20.c20_roundtrip"]
 CANARIES = [("wraps_modulo_12h", "pendulum.time.Time.add", _canary_add)]
 ASSUMPTIONS = ["Time.add/subtract go through DateTime.EPOCH.at(...).add(...) in UTC: relies on the contracts of DateTime.set/add (C02/C03)",
